@@ -5,7 +5,7 @@
    Hosts are those of the plain grammar (ALPHA / DIGIT / "-" / "." with an optional port). *)
 From AP.Model Require Import Prelude Bytes Url IriEq IriNf Vocab Pred CollIri Utf8 FoldTab Fold UrlU IriEqU CollIriU.
 From AP.Gen Require Import TypeLists.
-From AP.Proofs Require Import NlvP LowerP IriEqP SortP IriGenP IriNfP Utf8P FoldP DecodeUP CleanUP UrlUP QueryUP IriGenUP IriUP CollIriP.
+From AP.Proofs Require Import NlvP LowerP IriEqP SortP IriGenP IriNfP Utf8P FoldP DecodeUP CleanUP UrlUP QueryUP IriGenUP IriUP CollIriP NameEqP.
 
 (* ================================================================ the owner grammar *)
 Definition owner_ok_u (sch h r : bytes) : bool :=
@@ -290,7 +290,7 @@ Proof.
   destruct (lower_scheme_ok sch Hal Hs) as [L1 L2].
   assert (Rd : rooted_or_empty d = true) by (apply (pct_decode_rooted r d Hd Hr)).
   assert (RD : rooted_or_empty (D' ++ [slash]) = true) by (rewrite <- ED; apply rooted_slashes; exact Rd).
-  unfold split_u, coll_split_u. rewrite E1.
+  unfold split_u, coll_split_u, coll_split_with. rewrite E1.
   assert (owner_str sch h (r ++ repeat slash j ++ c) <> []) as NE by (subst sch; discriminate).
   destruct (owner_str sch h (r ++ repeat slash j ++ c)) eqn:EO; [congruence|]. rewrite <- EO. clear EO NE.
   rewrite (parse_owner_u _ _ _ _ Ok2 Dec2). cbn [owner_url uu_path].
@@ -357,9 +357,9 @@ Proof.
   intros H Hc. destruct (name_parts_u _ Hc) as [C1 _].
   destruct (owner_ok_u_parts _ _ _ H) as [_ [_ [_ [_ [Hr [_ [d Hd]]]]]]].
   destruct (irif_owner_u _ _ _ _ _ H Hd Hc) as [j [D' [Hj [_ [E2 [[X' EX] _]]]]]].
-  unfold of_actor_u. rewrite E2, EX.
+  unfold of_actor_u, of_actor_with. rewrite E2, EX.
   replace ((X' ++ [slash]) ++ c) with (X' ++ slash :: c) by (rewrite <- app_assoc; reflexivity).
-  rewrite (path_split_app X' c C1). rewrite ufold_eqb_refl. eexists. split; [reflexivity|].
+  rewrite (path_split_app X' c C1). rewrite name_eqb_refl. eexists. split; [reflexivity|].
   rewrite <- EX. rewrite trim_right_repeat. rewrite (trim_owner_u _ _ _ H).
   destruct (owner_trim_ok_u _ _ _ _ H Hd) as [da [k [Ok2 [Hda [Ed Rda]]]]].
   apply (owners_equivalent_u sch sch h _ r da d Ok2 H Hda Hd (fold_eqb_refl sch)).
@@ -371,37 +371,38 @@ Lemma valid_join_u sch h r c : owner_ok_u sch h r = true -> name_ok_u c = true -
   valid_collection_iri_u (irif (owner_str sch h r) c) = Some true.
 Proof.
   intros H Hc. destruct (split_join_u _ _ _ _ H Hc) as [o' [E _]].
-  unfold valid_collection_iri_u. rewrite E. destruct (name_parts_u _ Hc) as [_ [_ [_ [_ C6]]]]. rewrite C6. reflexivity.
+  unfold valid_collection_iri_u, valid_collection_iri_w. change (coll_split_with (contains_with name_eqb) tl_ActivityPubCollections) with split_u.
+  rewrite E. destruct (name_parts_u _ Hc) as [_ [_ [_ [_ C6]]]]. unfold valid_collection_u in C6. rewrite C6. reflexivity.
 Qed.
 
-Lemma ufold_nonempty f n : ufold_eqb f n = true -> nonempty n = true -> nonempty f = true.
+Lemma name_eqb_nonempty f n : name_eqb f n = true -> nonempty n = true -> nonempty f = true.
 Proof.
-  destruct f; [|reflexivity]. intros H Hn. apply ufold_eqb_eq in H. symmetry in H. apply (ucanon_nil fold_tab) in H. subst n. discriminate.
+  unfold name_eqb. rewrite andb_true_iff, Nat.eqb_eq. intros [L _] Hn. destruct f; [|reflexivity]. destruct n; [discriminate|discriminate].
 Qed.
 
 Lemma contains_u_nonempty L f : forallb nonempty L = true -> contains_u L f = true -> nonempty f = true.
 Proof.
-  intros HL H. unfold contains_u in H. apply existsb_exists in H. destruct H as [n [Hn Hf]].
-  rewrite forallb_forall in HL. apply (ufold_nonempty f n Hf (HL n Hn)).
+  intros HL H. unfold contains_u, contains_with in H. apply existsb_exists in H. destruct H as [n [Hn Hf]].
+  rewrite forallb_forall in HL. apply (name_eqb_nonempty f n Hf (HL n Hn)).
 Qed.
 
 Lemma contains_u_valid f : contains_u tl_ActivityPubCollections f = true -> valid_collection_u f = true.
 Proof.
-  intros H. unfold valid_collection_u, get_valid_collection_u, get_valid_activity_collection_u.
-  destruct (contains_u tl_validActivityCollection f) eqn:A.
+  intros H. unfold valid_collection_u, valid_collection_w, get_valid_collection_w, get_valid_activity_collection_w.
+  change (contains_with name_eqb) with contains_u. destruct (contains_u tl_validActivityCollection f) eqn:A.
   - assert (N : nonempty f = true) by (apply (contains_u_nonempty _ f) in A; [exact A|reflexivity]).
     destruct f; [discriminate|reflexivity].
-  - unfold get_valid_object_collection_u. unfold contains_u in H. apply existsb_exists in H. destruct H as [n [Hn Hf]].
+  - unfold get_valid_object_collection_w. unfold contains_u, contains_with in H. apply existsb_exists in H. destruct H as [n [Hn Hf]].
     assert (In n tl_validActivityCollection \/ In n valid_object_collections) as [I|I].
     { assert (S : forallb (fun n => existsb (bytes_eqb n) tl_validActivityCollection
                                    || existsb (bytes_eqb n) valid_object_collections) tl_ActivityPubCollections = true)
         by (vm_compute; reflexivity).
       rewrite forallb_forall in S. specialize (S n Hn). apply orb_true_iff in S. destruct S as [S|S];
         apply existsb_exists in S; destruct S as [m [Hm Em]]; apply bytes_eqb_eq in Em; subst m; auto. }
-    + exfalso. unfold contains_u in A. assert (existsb (fun n => ufold_eqb f n) tl_validActivityCollection = true).
+    + exfalso. unfold contains_u, contains_with in A. assert (existsb (fun n => name_eqb f n) tl_validActivityCollection = true).
       { apply existsb_exists. exists n. split; assumption. }
       congruence.
-    + destruct (find (fun n => ufold_eqb f n) valid_object_collections) as [m|] eqn:F.
+    + destruct (find (fun n => name_eqb f n) valid_object_collections) as [m|] eqn:F.
       * apply find_some in F. destruct F as [F _].
         assert (S : forallb nonempty valid_object_collections = true) by reflexivity.
         rewrite forallb_forall in S. exact (S m F).
@@ -413,7 +414,7 @@ Qed.
 Lemma valid_owner_u sch h r d : owner_ok_u sch h r = true -> pct_decode r = Some d ->
   valid_collection_iri_u (owner_str sch h r) = Some (contains_u tl_ActivityPubCollections (snd (path_split d))).
 Proof.
-  intros H Hd. unfold valid_collection_iri_u, split_u, coll_split_u.
+  intros H Hd. unfold valid_collection_iri_u, valid_collection_iri_w, coll_split_with. change (contains_with name_eqb) with contains_u. change (valid_collection_w name_eqb) with valid_collection_u.
   destruct (owner_ok_u_parts _ _ _ H) as [[c0 [t [Es _]]] [_ [_ [_ [Hr _]]]]].
   assert (owner_str sch h r <> []) as NE by (subst sch; discriminate).
   destruct (owner_str sch h r) eqn:EO; [congruence|]. rewrite <- EO. clear EO NE.
@@ -475,10 +476,25 @@ Proof.
     rewrite Ed. symmetry. apply clean_url_path_slashes. exact Rda.
 Qed.
 
-(* the ASCII fold of Model/CollIri.v would not do: the last segment "li\u212Aed" is a collection name for the code *)
-Lemma kelvin_owner :
+(* the last segment of an owner is recognised exactly when it is an ASCII-case variant of one of the eight names: the
+   repaired Contains is the ASCII one of Model/CollIri.v on these names *)
+Lemma names_ascii : forallb (forallb is_asciib) tl_ActivityPubCollections = true.
+Proof. vm_compute. reflexivity. Qed.
+
+Lemma valid_owner_ascii sch h r d : owner_ok_u sch h r = true -> pct_decode r = Some d ->
+  valid_collection_iri_u (owner_str sch h r) = Some (contains tl_ActivityPubCollections (snd (path_split d))).
+Proof. intros H Hd. rewrite (valid_owner_u sch h r d H Hd), (contains_u_ascii _ _ names_ascii). reflexivity. Qed.
+
+(* the pinned tree compared with strings.EqualFold alone: a segment spelled with U+212A KELVIN SIGN was a name *)
+Lemma kelvin_owner_pinned :
   owner_ok_u (B "https") (B "example.com") (B "/users/li%E2%84%AAed") = true /\
-  owner_ok (B "https") (B "example.com") (B "/users/li%E2%84%AAed") = false /\
-  valid_collection_iri_u (B "https://example.com/users/li%E2%84%AAed") = Some true /\
-  split_u (B "https://example.com/users/li%E2%84%AAed") = Some (B "https://example.com/users", hx "6c69e284aa6564").
+  valid_collection_iri_u_pinned (B "https://example.com/users/li%E2%84%AAed") = Some true /\
+  split_u_pinned (B "https://example.com/users/li%E2%84%AAed") = Some (B "https://example.com/users", hx "6c69e284aa6564") /\
+  of_actor_u_pinned (B "likes") (B "https://example.com/users/like%C5%BF") = Err /\
+  of_actor_u_pinned (B "likes") (hx "68747470733a2f2f6578616d706c652e636f6d2f75736572732f6c696b65c5bf") = Ok (B "https://example.com/users") /\
+  (* the repaired tree on the same inputs *)
+  valid_collection_iri_u (B "https://example.com/users/li%E2%84%AAed") = Some false /\
+  split_u (B "https://example.com/users/li%E2%84%AAed") = Some (B "https://example.com/users", []) /\
+  of_actor_u (B "likes") (hx "68747470733a2f2f6578616d706c652e636f6d2f75736572732f6c696b65c5bf") = Err /\
+  valid_collection_iri_u (B "https://example.com/users/LiKeD") = Some true.
 Proof. repeat split; vm_compute; reflexivity. Qed.
